@@ -37,14 +37,17 @@ type c14Input struct {
 	Post   map[string]c14Step `json:"post"` //
 	NoPre  bool               `json:"no_pre"`
 	NoPost bool               `json:"no_post"`
+	Root   string             `json:"root,omitempty"` // "" = the file, "body" = the body of the first function (a *File root cannot be replaced outside a Package)
 }
 
 type c14Log struct {
-	entries []string
-	visited map[interface{}]int
-	created map[interface{}]bool
-	edited  map[interface{}]bool
-	bad     string
+	entries      []string
+	visited      map[interface{}]int
+	created      map[interface{}]bool
+	edited       map[interface{}]bool
+	bad          string
+	rootRepl     dst.Node
+	resultIsRepl bool
 }
 
 func kindOf(n interface{}) string {
@@ -96,6 +99,24 @@ func newAst(like ast.Node, k int) ast.Node {
 	return nil
 }
 
+func firstBodyDst(f *dst.File) dst.Node {
+	for _, d := range f.Decls {
+		if fd, ok := d.(*dst.FuncDecl); ok && fd.Body != nil {
+			return fd.Body
+		}
+	}
+	return f
+}
+
+func firstBodyAst(f *ast.File) ast.Node {
+	for _, d := range f.Decls {
+		if fd, ok := d.(*ast.FuncDecl); ok && fd.Body != nil {
+			return fd.Body
+		}
+	}
+	return f
+}
+
 func c14RunDst(in c14Input, f *dst.File) (res dst.Node, lg *c14Log, pm string) {
 	lg = &c14Log{visited: map[interface{}]int{}, created: map[interface{}]bool{}, edited: map[interface{}]bool{}}
 	counter := 0
@@ -143,6 +164,13 @@ func c14RunDst(in c14Input, f *dst.File) (res dst.Node, lg *c14Log, pm string) {
 			if !ok {
 				return true
 			}
+			if c.Name() == "Node" && len(st.Ops) == 1 && st.Ops[0] == "replace-root" {
+				lg.rootRepl = &dst.BlockStmt{}
+				if in.Root == "" {
+					lg.rootRepl = &dst.File{Name: dst.NewIdent("replaced")}
+				}
+				c.Replace(lg.rootRepl)
+			}
 			if c.Index() >= 0 && n != nil {
 				for oi, op := range st.Ops {
 					nn := newDst(n, j*10+oi)
@@ -176,12 +204,18 @@ func c14RunDst(in c14Input, f *dst.File) (res dst.Node, lg *c14Log, pm string) {
 	if !in.NoPost {
 		post = mk("post", in.Post)
 	}
-	pm = safely(func() { res = dstutil.Apply(f, pre, post) })
+	var root dst.Node = f
+	if in.Root == "body" {
+		root = firstBodyDst(f)
+	}
+	pm = safely(func() { res = dstutil.Apply(root, pre, post) })
+	lg.resultIsRepl = lg.rootRepl != nil && res == lg.rootRepl
 	return
 }
 
-func c14RunAst(in c14Input, f *ast.File) (res ast.Node, entries []string, pm string) {
+func c14RunAst(in c14Input, f *ast.File) (res ast.Node, entries []string, pm string, resultIsRepl bool) {
 	counter := 0
+	var rootRepl ast.Node
 	mk := func(phase string, steps map[string]c14Step) astutil.ApplyFunc {
 		return func(c *astutil.Cursor) bool {
 			n := c.Node()
@@ -198,6 +232,13 @@ func c14RunAst(in c14Input, f *ast.File) (res ast.Node, entries []string, pm str
 			st, ok := steps[fmt.Sprint(j)]
 			if !ok {
 				return true
+			}
+			if c.Name() == "Node" && len(st.Ops) == 1 && st.Ops[0] == "replace-root" {
+				rootRepl = &ast.BlockStmt{}
+				if in.Root == "" {
+					rootRepl = &ast.File{Name: ast.NewIdent("replaced")}
+				}
+				c.Replace(rootRepl)
 			}
 			if c.Index() >= 0 && n != nil {
 				for oi, op := range st.Ops {
@@ -227,7 +268,12 @@ func c14RunAst(in c14Input, f *ast.File) (res ast.Node, entries []string, pm str
 	if !in.NoPost {
 		post = mk("post", in.Post)
 	}
-	pm = safely(func() { res = astutil.Apply(f, pre, post) })
+	var root ast.Node = f
+	if in.Root == "body" {
+		root = firstBodyAst(f)
+	}
+	pm = safely(func() { res = astutil.Apply(root, pre, post) })
+	resultIsRepl = rootRepl != nil && res == rootRepl
 	return
 }
 
@@ -266,7 +312,7 @@ func c14Check(in c14Input) (key, what string) {
 	}
 	dres, lg, dpm := c14RunDst(in, df)
 	af.Comments = nil // the edits below leave free-floating comments without anchors
-	ares, alog, apm := c14RunAst(in, af)
+	ares, alog, apm, aIsRepl := c14RunAst(in, af)
 	if (dpm != "") != (apm != "") {
 		return "c14-panic", fmt.Sprintf("dstutil.Apply panic=%q, astutil.Apply panic=%q", dpm, apm)
 	}
@@ -287,8 +333,14 @@ func c14Check(in c14Input) (key, what string) {
 	if kindOf(dres) != kindOf(ares) {
 		return "c14-result", fmt.Sprintf("dstutil.Apply returned %s, astutil.Apply %s", kindOf(dres), kindOf(ares))
 	}
-	// same final tree: compare printed tokens
+	if lg.resultIsRepl != aIsRepl {
+		return "c14-result", fmt.Sprintf("after the root was replaced through the cursor: dstutil.Apply returns the replacement: %v, astutil.Apply: %v", lg.resultIsRepl, aIsRepl)
+	}
+	// same final tree: same root, then compare printed tokens
 	if dfile, ok := dres.(*dst.File); ok {
+		if afile, ok := ares.(*ast.File); ok && afile.Name != nil && dfile.Name != nil && afile.Name.Name != dfile.Name.Name {
+			return "c14-result", fmt.Sprintf("dstutil.Apply returned file %q, astutil.Apply file %q", dfile.Name.Name, afile.Name.Name)
+		}
 		dout, derr, dpm := printDst(dfile)
 		var buf bytes.Buffer
 		aerr := format.Node(&buf, fset, ares)
@@ -381,6 +433,19 @@ func c14Prop(c *Ctx) {
 				in.Pre[fmt.Sprint(c.Rng.Intn(ncb/2+1))] = c14Step{Ops: []string{ops[c.Rng.Intn(4)]}, Return: true}
 			}
 		}
+		if mode == 7 {
+			in.Root = "body"
+		}
+		if mode == 7 { // replace the root itself (pre or post of callback 0 / the last post), optionally abort
+			if c.Rng.Intn(2) == 0 {
+				in.Pre["0"] = c14Step{Ops: []string{"replace-root"}, Return: true}
+			} else {
+				in.Pre["0"] = c14Step{Ops: []string{"replace-root"}, Return: c.Rng.Intn(2) == 0}
+			}
+			if c.Rng.Intn(2) == 0 {
+				in.Post[fmt.Sprint(c.Rng.Intn(ncb/2+1))] = c14Step{Return: false}
+			}
+		}
 		if mode == 5 {
 			in.NoPost = true
 		}
@@ -391,7 +456,7 @@ func c14Prop(c *Ctx) {
 	}
 	for _, src := range srcs {
 		for rep := 0; rep < c.N(3); rep++ {
-			for mode := 0; mode <= 6; mode++ {
+			for mode := 0; mode <= 7; mode++ {
 				in := gen(src, mode)
 				c.Res.Evaluations++
 				b, _ := json.Marshal(in)
